@@ -62,6 +62,7 @@ class State:
         self.in_binder = 0
         self.bound: dict = {}
         self.calllog: list = []  # ghost: calls made through contracts on this path: (short name, [argument values])
+        self.matchiters: list = []  # ghost: the finditer iterators made on this path: (pattern constant, text term, iterator)
         self.objattrs: dict = {}  # per-path attribute stores of opaque objects: id(VObj) -> {attr: value}
 
     def clone(self) -> "State":
@@ -80,6 +81,7 @@ class State:
         s.bound = dict(self.bound)
         s.objattrs = {k: dict(v) for k, v in self.objattrs.items()}
         s.calllog = list(self.calllog)
+        s.matchiters = list(self.matchiters)
         return s
 
     def assume(self, *conds):
